@@ -8,6 +8,8 @@
 //	jobsh http synthetic             codes 90..610 through a scripted HTTPHandler on one job object (x body x callback)
 //	jobsh http server                codes 100..599 from a local httptest server on one job object (x body x callback)
 //	jobsh http transport             refused / timeout / cancelled context
+//	jobsh http stream                previous response's body kept open by the server (stalled / trickle); next execution under another context (round3.go)
+//	jobsh shell nostart              executions that never start the shell (ctx done, shell missing / not executable) between ones that run (round3.go)
 //	jobsh shell exits                exit codes 0..255, signal, stale-status sequence on one object
 //	jobsh shell sizes                output sizes 0 .. 1 MiB on stdout and stderr
 //	jobsh func                       FunctionJob results / errors / zeroing
@@ -46,7 +48,7 @@ func atoi(s string) int {
 }
 
 func usage() {
-	fmt.Fprintln(os.Stderr, "usage: jobsh isolated stress G N SEED | isolated hold | isolated sched MS | http synthetic|server|transport | shell exits|sizes | func | cancel | overlap | conc KIND ROUNDS | leak N")
+	fmt.Fprintln(os.Stderr, "usage: jobsh isolated stress G N SEED | isolated hold | isolated sched MS | http synthetic|server|transport|stream | shell exits|sizes|nostart | func | cancel | overlap | conc KIND ROUNDS | leak N")
 	os.Exit(2)
 }
 
@@ -68,6 +70,10 @@ func main() {
 		httpServer()
 	case a[0] == "http" && len(a) == 2 && a[1] == "transport":
 		httpTransport()
+	case a[0] == "http" && len(a) == 2 && a[1] == "stream":
+		httpStream()
+	case a[0] == "shell" && len(a) == 2 && a[1] == "nostart":
+		shellNoStart()
 	case a[0] == "shell" && len(a) == 2 && a[1] == "exits":
 		shellExits()
 	case a[0] == "shell" && len(a) == 2 && a[1] == "sizes":
